@@ -328,7 +328,7 @@ func c02Gen(t *rapid.T) C02Case {
 	dockerKeys := []string{"com.docker.compose.service", "com.docker.compose.project", "env", "tier", "a-b", "a/b c", "1st", "maintainer", "org.label-schema.name", "ünï",
 		// keys spelled like the daemon's own container attributes / list filters
 		"id", "name", "image", "status", "label", "ancestor"}
-	dockerVals := []string{"web", "db", "prod", "", "x y", "1", "prod-eu", "/srv/shop", "/", "/web", "web/", ".*", "web|db", "Web"}
+	dockerVals := []string{"web", "db", "prod", "", "x y", "1", "prod-eu", "/srv/shop", "/", "/web", "web/", ".*", "web|db", "Web", " web", "web\n", "\t", " "}
 	usedID := map[string]bool{}
 	for i := 0; i < n; i++ {
 		ct := C02Ctr{ID: fmt.Sprintf("%x%02d", rapid.IntRange(0x100000, 0xffffff).Draw(t, "id"), i)}
